@@ -5,7 +5,7 @@ CONSTANTS
  MCShapes = {"img", "empty", "schema1", "inline", "idx2", "docker"}
  MCPairs = {"tworeg", "samereg", "samerepo", "reg2dir", "dir2reg", "dir2dir"}
  MCOpts <- MCOptsDefault
- MCFeats <- MCFeatsMount
+ MCFeats <- MCFeatsMount3
  MCInit = "all"
  MCTag0 = {"none", "stale", "same"}
  MCByDigest = {FALSE}
